@@ -5,7 +5,7 @@ t=$(mktemp -d /tmp/rebase-XXXX)
 mkdir -p $t/a $t/b
 cp -r /repo/src $t/a/src; cp -r /repo/src $t/b/src
 find $t -name __pycache__ -prune -exec rm -rf {} \; 2>/dev/null
-if patch -p1 -s --no-backup-if-mismatch --fuzz=3 -d $t/b -i "$p" >/dev/null 2>&1; then
+if patch -p1 -s -f --no-backup-if-mismatch --fuzz=3 -d $t/b -i "$p" </dev/null >/dev/null 2>&1; then
   (cd $t && diff -ruN a/src b/src | grep -v '^diff -ruN' | sed -E 's#^(---|\+\+\+) ([ab]/src/[^\t]*).*#\1 \2#') > $t/new.diff
   find $t/b -name '*.orig' -o -name '*.rej' | grep -q . && echo "LEFTOVER rej/orig for $p"
   if [ -s $t/new.diff ] && git -C /repo apply --check $t/new.diff 2>/dev/null && PYTHONPATH=$t/b/src /venv/bin/python -c "import physt, physt.plotting, physt.io" 2>/dev/null; then
